@@ -3,6 +3,9 @@
 package pdnode_coord
 
 import (
+	"strconv"
+
+	"github.com/twmb/murmur3"
 	"github.com/youzan/ZanRedisDB/cluster"
 	"vsym"
 )
@@ -22,6 +25,20 @@ func VerifModel_murmur3_Sum32(b []byte) uint32 { return c17Hash }
 func c17SymHash() {
 	c17Hash = vsym.U32("nshash")
 	vsym.AssumeModel(c17Hash < 60)
+}
+
+// c17NS: the namespace name. Symbolically any name ("ns": its hash is the symbolic c17Hash); natively a name
+// whose real murmur3 hash falls in the residue class (mod 60) the solver chose, so that counterexamples replay.
+func c17NS() string {
+	if vsym.Symbolic() {
+		return "ns"
+	}
+	for i := 0; ; i++ {
+		n := "ns" + strconv.Itoa(i)
+		if murmur3.Sum32([]byte(n))%60 == c17Hash%60 {
+			return n
+		}
+	}
 }
 
 var c17Names = []string{"n1", "n2", "n3", "n4", "n5", "n6"}
@@ -110,7 +127,7 @@ func Verif_C17_Fresh() {
 	t := c17Topology(maxN)
 	pnum := 1 + vsym.Choose("partitions", maxP)
 	replica := 1 + vsym.Choose("replica", 3)
-	res, err := getRebalancedNamespacePartitions("ns", pnum, replica, nil, t.nodes, ver)
+	res, err := getRebalancedNamespacePartitions(c17NS(), pnum, replica, nil, t.nodes, ver)
 	if t.n < replica {
 		vsym.Assert(err == ErrNodeUnavailable, "too few nodes: refused")
 		vsym.Assert(res == nil, "too few nodes: no degraded layout")
@@ -122,7 +139,7 @@ func Verif_C17_Fresh() {
 	c17CheckLayout(t, res, pnum, replica, "fresh "+ver)
 	// determinism: same inputs, other map iteration order
 	vsym.MapOrder(true)
-	res2, err2 := getRebalancedNamespacePartitions("ns", pnum, replica, nil, t.nodes, ver)
+	res2, err2 := getRebalancedNamespacePartitions(c17NS(), pnum, replica, nil, t.nodes, ver)
 	vsym.MapOrder(false)
 	vsym.Assert(err2 == nil && c17Same(res, res2), "layout is a function of its inputs (map iteration order does not matter)")
 	// rack awareness: nodes evenly spread over at least as many data centres as replicas
@@ -150,7 +167,7 @@ func Verif_C17_Fresh() {
 	vsym.Reach("end")
 }
 
-// v2 with a previous layout: old = fresh layout, then one node is lost or one is added.
+// v2 with a previous layout: old = fresh layout, then any subset of nodes is lost at once and/or one node joins.
 func Verif_C17_V2_Rebalance() {
 	maxN, maxP := c17Sizes()
 	c17SymHash()
@@ -161,20 +178,20 @@ func Verif_C17_V2_Rebalance() {
 		vsym.Reach("end")
 		return
 	}
-	old, err := getRebalancedNamespacePartitions("ns", pnum, replica, nil, t.nodes, BalanceV2Str)
+	old, err := getRebalancedNamespacePartitions(c17NS(), pnum, replica, nil, t.nodes, BalanceV2Str)
 	vsym.Assert(err == nil, "fresh v2 layout")
-	// change the node set
-	if vsym.Choose("change", 2) == 0 {
-		// lose one node
-		lost := c17Names[vsym.Choose("lost", t.n)]
-		delete(t.nodes, lost)
-		t.n--
-	} else if t.n < len(c17Names) {
+	// change the node set: any subset of the nodes is lost at once (possibly none), and possibly one node joins
+	for i := 0; i < len(c17Names); i++ {
+		if _, ok := t.nodes[c17Names[i]]; ok && vsym.Choose("lost", 2) == 1 {
+			delete(t.nodes, c17Names[i])
+		}
+	}
+	if t.n < len(c17Names) && vsym.Choose("join", 2) == 1 {
 		name := c17Names[t.n]
 		t.nodes[name] = cluster.NodeInfo{ID: name, Tags: map[string]interface{}{}}
-		t.n++
 	}
-	res, err := getRebalancedNamespacePartitions("ns", pnum, replica, old, t.nodes, BalanceV2Str)
+	t.n = len(t.nodes)
+	res, err := getRebalancedNamespacePartitions(c17NS(), pnum, replica, old, t.nodes, BalanceV2Str)
 	if t.n < replica {
 		vsym.Assert(err == ErrNodeUnavailable && res == nil, "too few nodes after the loss: refused")
 		vsym.Reach("end")
